@@ -15,6 +15,7 @@ LEVEL_TEXT = (
     "loaded; (R4) the formula of calculate_rewards has the shape stake*apr*dt/YEAR*(1-commission) with YEAR = 31 536 000. "
     "NOT decided: the linear bound, the rounding slack per withdrawal and independence from block slicing (numeric, "
     "history-dependent)."
+    " (R5) The STAKES-entry / staker-set pairing of C14.R1 is re-stated under C15's id: the reward shown is computed from the entry, the reward paid was credited by walking the set."
 )
 EXPLANATION = LEVEL_TEXT
 TRUSTED = ["rustc MIR construction", "cwmt-facts driver", "vlib (dominators, provenance)", "cosmwasm-std Decimal/Uint128 arithmetic"]
